@@ -3,6 +3,7 @@ package main
 import (
 	"bytes"
 	"fmt"
+	"regexp"
 	"go/parser"
 	"go/token"
 	"os"
@@ -22,7 +23,7 @@ func c01Cases(tier string) []*space.Case {
 		base = append(base, space.F3(space.Representatives())...)
 	} else {
 		base = append(base, space.F1("X")...)
-		base = append(base, space.F2(space.Representatives()[:14], false)...)
+		base = append(base, space.F2(space.Representatives(), false)...)
 	}
 	base = append(base, space.F4()...)
 	base = append(base, space.F5()...)
@@ -44,6 +45,19 @@ func c01Cases(tier string) []*space.Case {
 		vs = []v{{false, false, "none"}, {true, true, "flags"}, {false, true, "names"}, {true, false, "names"}, {true, true, "none"}, {false, false, "flags"}}
 	}
 	var out []*space.Case
+	// go_package option: import path, and import path with an explicit package name
+	for i, c := range base {
+		if c.Family == "F1" && i%9 != 0 && tier != "thorough" {
+			continue
+		}
+		for gi, gp := range []string{"example.com/acme/apitypes", "example.com/acme/api/types;apitypes"} {
+			v := space.Variant(c, gi == 1, false, "none")
+			v.File.GoPackage = gp
+			v.Label += fmt.Sprintf("|go_package=%d", gi)
+			v.Tags["go_package"] = fmt.Sprint(gi)
+			out = append(out, v)
+		}
+	}
 	for _, c := range base {
 		for _, x := range vs {
 			if c.Family != "F1" && tier != "thorough" && !(x.mix == "none" || (x.sort && x.sep)) {
@@ -54,6 +68,8 @@ func c01Cases(tier string) []*space.Case {
 	}
 	return out
 }
+
+var goPkgClause = regexp.MustCompile(`(?m)^package (\w+)`)
 
 func caseShape(c *space.Case) string {
 	s := "case:" + c.Tags["class"] + "/" + c.Tags["card"] + "/" + c.Tags["vt"] + "@" + c.Tags["pos"]
@@ -93,7 +109,11 @@ func absoluteResponseChecks(r *Run, b *scratch.Built, license []byte) {
 		add("file-count", fmt.Sprintf("response holds %d files", len(tf.Resp.File)))
 		return
 	}
+	// named after the proto file (in the directory protoc-gen-gogo itself uses when go_package carries an import path)
 	wantName := strings.TrimSuffix(c.File.Name, ".proto") + "_terraform.go"
+	if b.Gogo != nil && b.Gogo.Resp != nil && len(b.Gogo.Resp.File) == 1 {
+		wantName = strings.TrimSuffix(b.Gogo.Resp.File[0].GetName(), ".pb.go") + "_terraform.go"
+	}
 	if got := tf.Resp.File[0].GetName(); got != wantName {
 		add("file-name", fmt.Sprintf("file is named %q, want %q", got, wantName))
 	}
@@ -108,6 +128,11 @@ func absoluteResponseChecks(r *Run, b *scratch.Built, license []byte) {
 		return
 	}
 	wantPkg := c.File.Pkg
+	if b.Gogo != nil {
+		if m := goPkgClause.FindStringSubmatch(b.Gogo.Content()); m != nil {
+			wantPkg = m[1] // the proto's own Go package, as protoc-gen-gogo names it
+		}
+	}
 	if c.Cfg.TargetPkg != "" {
 		wantPkg = c.Cfg.TargetPkg
 	}
